@@ -21,13 +21,17 @@ HR == {[k |-> "hr", algs |-> a, single |-> s, chunks |-> c, total |-> t, seed |-
           a \in {<<"sha256">>, <<"md5", "sha512">>, <<"sha1", "md5", "sha256", "sha512">>}, s \in BOOLEAN, c \in Bufs,
           t \in {0, 1, 5, 130}, sr \in {"dataerr", "onebyte", "half"}}
 HRok == {v \in HR : v.single => Len(v.algs) = 1}
-Sources == {<<"sha256", "dsc256">>, <<"sha256", "best">>, <<"sha512", "best">>, <<"sha256", "bestloop">>, <<"sha512", "bestloop">>} \cup {<<a, "hasher">> : a \in Algs}
+Sources == {<<"sha256", "dsc256">>, <<"sha256", "best">>, <<"sha512", "best">>, <<"sha256", "bestloop">>, <<"sha512", "bestloop">>,
+            <<"sha256", "bestafter">>, <<"sha512", "bestafter">>} \cup {<<a, "hasher">> : a \in Algs}
 RecordedKinds(alg) == {"equal", "upper", "unequal", "trunc_odd", "trunc_even", "trunc_zero_tail", "empty_content_hash", "longer", "zero_padded"} \cup
                       {"other:" \o a : a \in Algs \ {alg}}
 Ver == UNION {{[k |-> "verifier", alg |-> s[1], source |-> s[2], recorded |-> r, len |-> n, chunks |-> c, seed |-> 5] :
                    r \in RecordedKinds(s[1]), n \in Lens, c \in {<<>>, <<1>>, <<64, 1>>}} : s \in Sources}
 \* the entry variable is overwritten with another entry between Verifier() and Close()
 VerReuse == UNION {{[k |-> "verifier", alg |-> s[1], source |-> s[2], recorded |-> r, len |-> 64, chunks |-> <<1>>, seed |-> 5, reuse_var |-> TRUE] :
+                   r \in {"equal", "unequal"}} : s \in Sources}
+\* a second verifier of the same algorithm is alive and fed between the chunks of the one under test
+VerInter == UNION {{[k |-> "verifier", alg |-> s[1], source |-> s[2], recorded |-> r, len |-> 130, chunks |-> <<64, 1>>, seed |-> 5, interleave |-> TRUE] :
                    r \in {"equal", "unequal"}} : s \in Sources}
 \* sequences of verifications in one process: accept, reject, accept again (per algorithm), and reject first
 St(a, src, r) == [alg |-> a, source |-> src, recorded |-> r, len |-> 64, chunks |-> <<1>>, seed |-> 5]
@@ -40,5 +44,5 @@ LifeOps == {[op |-> "w", n |-> n] : n \in {1, 63, 65, 129}} \cup {[op |-> "ws", 
 LifeSeqs == UNION {[1..m -> LifeOps] : m \in 2..LifeLen}
 Life == {[k |-> "hasher_life", alg |-> a, ops |-> o] : a \in Algs,
             o \in {q \in LifeSeqs : \E i \in 1..Len(q) : q[i].op \in {"s", "e", "sp"}}}
-ASSUME Emit(SetToSeq(HWok \cup HRok \cup Ver) \o SetToSeq(VerSeqs) \o SetToSeq(Life) \o SetToSeq(VerReuse))
+ASSUME Emit(SetToSeq(HWok \cup HRok \cup Ver) \o SetToSeq(VerSeqs) \o SetToSeq(Life) \o SetToSeq(VerReuse) \o SetToSeq(VerInter))
 =============================================================================
